@@ -1,6 +1,296 @@
-import Driver.JsonIO
+import Driver.Loc
+import RulioModel.Cache
 open Lean
 
-/-- model-side handler for cases whose "kind" starts with "c17." (stub until the property's slice lands) -/
+/-! Model-side handlers for C17: the cache model of `RulioModel/Cache.lean` instantiated with the Location model
+of `RulioModel/Loc.lean` (an API call = `stepOp` of Driver/Loc.lean on a one-location system whose storage and
+UUID counter are the shared ones). -/
+
+/-- the shared storage of one location: stored documents and the (global) id counter standing in for UUIDs -/
+structure DStore where
+  docs : List (String × J) := []
+  fresh : Nat := 0
+
+def markerId : String := genPropId "" "createdAt"
+
+def withStore (loc : Loc) (n : String) (s : DStore) : Loc :=
+  { loc with name := n, st := { loc.st with store := s.docs, fresh := s.fresh } }
+
+def storeJ (s : DStore) : Json := Json.mkObj (s.docs.map (fun (id, d) => (id, J.toJson d)))
+
+/-! The System builds every location with the cron hooks (`cron.AddHooks`, system.go:757). The remove hook runs
+before every top-level `State.Rem` and starts with `state.Get(id)`: removing an id that is not there is an error
+through the System (it is not on a bare `core.Location`). Facts carry no schedule here, so the hooks do nothing else. -/
+def hookRem (id : String) (now : Int) : LM Bool := do
+  let _ ← stGet id now
+  stRem id now
+
+def locRemFactH (c : Ctx) (id : String) (now : Int) : LM String := do
+  runGuards c now (guardsOf "RemFact"); let _ ← hookRem id now; pure id
+
+def locRemRuleH (c : Ctx) (id : String) (now : Int) : LM String := do
+  runGuards c now (guardsOf "RemRule")
+  let _ ← hookRem id now
+  let (_, found) ← getProp id "disabled" (.bool false) now
+  if found then do
+    let _ ← hookRem (genPropId id "disabled") now
+    pure id
+  else pure id
+
+def locEnableRuleH (c : Ctx) (id : String) (enable : Bool) (now : Int) : LM Unit := do
+  runGuards c now (guardsOf "EnableRule")
+  if enable then do
+    let _ ← hookRem (genPropId id "disabled") now
+    pure ()
+  else do
+    let _ ← setProp id "disabled" (.bool true) now
+    pure ()
+
+/-- `stepOp` for a location built by the System (cron hooks installed) -/
+def stepOpH (sys : Sys) (op : Json) : Sys × Json :=
+  let n := jstr op "loc"
+  let now := jint op "now"
+  let c : Ctx := { rk := jstr op "rk", wk := jstr op "wk" }
+  let id := jstr op "id"
+  match jstr op "op" with
+  | "remFact" => let (s, r) := sys.at n (locRemFactH c id now); (s, res r Json.str)
+  | "remRule" => let (s, r) := sys.at n (locRemRuleH c id now); (s, res r Json.str)
+  | "enableRule" => let (s, r) := sys.at n (locEnableRuleH c id (jbool op "enable") now); (s, res r (fun _ => Json.bool true))
+  | "noop" => (sys, okJ (Json.bool true))
+  | _ => stepOp sys op
+
+def drvSem (kind : Kind) : LocSem where
+  L := Except String Loc
+  S := DStore
+  Op := Json
+  Res := Json
+  emptyS := {}
+  load := fun tns s =>
+    match St.reload { kind := kind, store := s.docs, fresh := s.fresh } (tns / 1000000000) with
+    | .ok st => .ok { name := "", st := st }
+    | .error e => .error e
+  exec := fun l s op =>
+    match l with
+    | .error e => (l, s, errJ ("load:" ++ e))
+    | .ok loc =>
+      let n := jstr op "loc"
+      let loc := withStore loc n s
+      let (sys', out) := stepOpH [(n, loc)] op
+      match sys'.get? n with
+      | some loc' => (.ok loc', { docs := loc'.st.store, fresh := loc'.st.fresh }, out)
+      | none => (.ok loc, s, out)
+  created := fun l => match l with
+    | .ok loc => (match (getProp "" "createdAt" (.str "") 0 loc).2 with | .ok (_, found) => found | .error _ => false)
+    | .error _ => false
+  mark := fun l s => match l with
+    | .ok loc =>
+      let loc := withStore loc loc.name s
+      let (loc', _) := setProp "" "createdAt" (.str "T") 0 loc
+      (.ok loc', { docs := loc'.st.store, fresh := loc'.st.fresh })
+    | .error _ => (l, s)
+  cacheTTL := fun l => match l with
+    | .ok loc => (match (getProp "" "cacheTTL" .null 0 loc).2 with
+        | .ok (.num ms, true) => some (ms * 1000000)
+        | _ => none)
+    | .error _ => none
+
+def parseCfg (c : Json) : Cfg :=
+  let ttl := match jget c "ttl" with
+    | .str "never" => TTL.never
+    | .str "forever" => TTL.forever
+    | .str "1ms" => TTL.finite 1000000
+    | .str _ => TTL.forever
+    | j => (match j.getInt? with | .ok n => if n == 0 then TTL.never else if n < 0 then TTL.forever else TTL.finite n | .error _ => TTL.forever)
+  { ttl := ttl, checkExistence := jbool c "check", cachePending := !(jbool c "noCachePending") }
+
+def kindOf (c : Json) : Kind := if jstr c "state" == "linear" then Kind.linear else Kind.indexed
+
+def outJ {k : Kind} : Out (drvSem k) → Json
+  | .ok r => r
+  | .notFound => Json.mkObj [("err", Json.str "notFound"), ("rules", Json.arr #[]), ("values", Json.arr #[])]
+  | .created b => okJ (Json.bool b)
+  | .peeked => okJ (Json.bool true)
+
+def reqOf (k : Kind) (op : Json) : Req (drvSem k) :=
+  let n := jstr op "loc"
+  match jstr op "op" with
+  | "create" => .create n
+  | "peek" => .peek n
+  | _ => .api n op
+
+/-- syntactic over-approximation of "erases the createdAt marker" (the complement of `KeepsMarker`) -/
+def erasesMarker (op : Json) : Bool :=
+  let o := jstr op "op"
+  o == "clear" || ((o == "remFact" || o == "remRule") && (jstr op "id" == "" || jstr op "id" == markerId))
+
+/-- Clock reconstruction. The harness brackets every request by two clock readings `t0 ≤ t1`; the code reads the
+clock somewhere in between, once when the entry is created (`Expires`) and once in `Release`. The model is run with
+`tOpen = t0`; the unknown offset δ ∈ [0, t1-t0] of the creating request is tracked as an interval per cache entry
+lifetime and every later `Release` is given the clock value (inside its own bracket, shifted by an admissible δ)
+that reproduces the observed outcome *if one exists*; otherwise the bracket end is used and the model's answer
+differs from the observation. -/
+structure Life where
+  dLo : Int
+  dHi : Int
+  openIdx : Nat
+
+/-- choose the model's release time; `e` = the entry's `Expires` in the model, `obs` = entry observed in the table
+after the request -/
+def chooseRel (life : Life) (idx : Nat) (e t0 t1 : Int) (obs : Bool) : Int × Life :=
+  if obs then
+    -- kept needs (r - δ) < e for some r ∈ [t0,t1], δ ∈ [dLo,dHi] (and r - δ ≥ tOpen = t0 for the creating request)
+    let lo := if idx == life.openIdx then t0 else t0 - life.dHi
+    if lo < e then
+      let life' := if idx == life.openIdx then life else { life with dLo := max life.dLo (t0 - e + 1) }
+      (min (e - 1) t1, life')
+    else (t1, life)
+  else
+    if t1 - life.dLo ≥ e then (max e t0, { life with dHi := min life.dHi (t1 - e) })
+    else (t1, life)
+
+/-- kind "c17.sys": sequential history; per op the model's answer, the direct-operation answer (`spec`), the number
+of loads and whether the name is in the cache table afterwards -/
+def handleC17Sys (c : Json) : Json :=
+  let k := kindOf c
+  let cfg := parseCfg c
+  let step := fun (acc : SysSt (drvSem k) × DSt (drvSem k) × List Json × Bool × List (String × Life) × Nat) (op : Json) =>
+    let (st, d, outs, frag, lives, idx) := acc
+    let n := jstr op "loc"
+    match jstr op "op" with
+    | "store" => (st, d, outs ++ [(okJ (storeJ (storeOf st.store n))).setObjVal! "loads" (Json.num 0)
+                    |>.setObjVal! "cached" (Json.bool (kget st.table n).isSome)
+                    |>.setObjVal! "spec" (okJ (storeJ (dget d n 0).2))], frag, lives, idx + 1)
+    | "sleep" => (st, d, outs ++ [(okJ (Json.bool true)).setObjVal! "loads" (Json.num 0)
+                    |>.setObjVal! "cached" (Json.bool (kget st.table n).isSome) |>.setObjVal! "spec" (okJ (Json.bool true))], frag, lives, idx + 1)
+    | o =>
+      let r := reqOf k op
+      let t0 := jint op "t0"
+      let t1 := jint op "t1"
+      -- look at the entry right after Open to learn its Expires and whether this request created it
+      let stO := (openE cfg st n (match r with | .api _ _ => true | _ => false) t0).1
+      let loaded := stO.loads.length > st.loads.length
+      let lives := if loaded then kset lives n { dLo := 0, dHi := t1 - t0, openIdx := idx } else lives
+      let (trel, lives) := match kget stO.table n, kget lives n, (jget op "obs").getBool? with
+        | some e, some life, .ok obs => let (t, life') := chooseRel life idx e.expires t0 t1 obs; (t, kset lives n life')
+        | _, _, _ => (t1, lives)
+      let (st', out) := reqE cfg st r t0 trel
+      let (d', sout) := reqD cfg.checkExistence d r t0
+      let frag' := frag && !(cfg.checkExistence && (o == "peek" || erasesMarker op))
+      let j := (outJ out).setObjVal! "loads" (Json.num (st'.loads.length - st.loads.length))
+                |>.setObjVal! "cached" (Json.bool (kget st'.table n).isSome)
+                |>.setObjVal! "spec" (outJ sout)
+      (st', d', outs ++ [j], frag', lives, idx + 1)
+  let (_, _, outs, frag, _, _) := (jarr c "ops").foldl step ({}, { base := [] }, [], true, [], 0)
+  Json.mkObj [("outs", Json.arr outs.toArray), ("frag", Json.bool frag)]
+
+/-! kind "c17.proto": the exported protocol driven step by step (Open / Location call / Release per handle) -/
+
+structure PSt (k : Kind) where
+  c : CSt (drvSem k) := {}
+  handles : List (String × Nat) := []     -- handle ↦ thread id
+  d : DSt (drvSem k) := { base := [] }    -- direct operation (specification)
+  multiLive : Bool := false               -- an instance was loaded while another one of the same name was held
+
+def stepsUntil {k : Kind} (cfg : Cfg) (c : CSt (drvSem k)) (tid : Nat) (now : Int) (stop : PC (drvSem k) → Bool) : Nat → CSt (drvSem k)
+  | 0 => c
+  | fuel + 1 =>
+    match c.pcs[tid]? with
+    | some pc => if stop pc then c else stepsUntil cfg (cstep cfg c tid now) tid now stop fuel
+    | none => c
+
+def isOpened {k : Kind} : PC (drvSem k) → Bool
+  | .opened _ _ => true
+  | .done _ _ => true
+  | _ => false
+
+def isFinished {k : Kind} : PC (drvSem k) → Bool
+  | .done _ _ => true
+  | _ => false
+
+/-- some thread other than `tid` currently holds an instance of `n` -/
+def heldElsewhere {k : Kind} (c : CSt (drvSem k)) (tid : Nat) (n : String) : Bool :=
+  (List.range c.pcs.length).any (fun t => t != tid && (match c.pcs[t]? with
+    | some (.opened r (some _)) => r.name == n
+    | some (.releasing m (some _) _) => m == n
+    | _ => false))
+
+def handleC17Proto (cj : Json) : Json :=
+  let k := kindOf cj
+  let cfg := parseCfg cj
+  let step := fun (acc : PSt k × List Json) (s : Json) =>
+    let (p, outs) := acc
+    let h := jstr s "h"
+    let t0 := jint s "t0"
+    let t1 := jint s "t1"
+    let nameOfH : String := match kget p.handles h with
+      | some tid => (match p.c.pcs[tid]? with
+          | some (.opened r _) => r.name
+          | some (.releasing m _ _) => m
+          | _ => jstr s "loc")
+      | none => jstr s "loc"
+    let n := if jstr s "loc" == "" then nameOfH else jstr s "loc"
+    let loads0 := p.c.loads.length
+    let fin := fun (p' : PSt k) (j : Json) =>
+      let j := j.setObjVal! "loads" (Json.num (p'.c.loads.length - loads0))
+            |>.setObjVal! "cached" (Json.bool (kget p'.c.table n).isSome)
+      (p', outs ++ [j])
+    match jstr s "t" with
+    | "open" =>
+      let tid := p.c.pcs.length
+      let r : Req (drvSem k) := if jbool s "check" then .api n (Json.mkObj [("loc", Json.str n), ("op", Json.str "noop")]) else .peek n
+      let c0 := { p.c with pcs := p.c.pcs ++ [PC.start r] }
+      let c1 := stepsUntil cfg c0 tid t0 isOpened 4
+      let newLoad := c1.loads.length > loads0
+      let ml := p.multiLive || (newLoad && heldElsewhere c1 tid n)
+      (match c1.pcs[tid]? with
+       | some (.opened _ (some i)) => fin { p with c := c1, handles := kset p.handles h tid, multiLive := ml } (okJ (Json.num i))
+       | _ => fin { p with c := c1, multiLive := ml } (errJ "notFound"))
+    | "op" =>
+      (match kget p.handles h with
+       | none => fin p (errJ "nohandle")
+       | some tid =>
+         match p.c.pcs[tid]? with
+         | some (.opened _ (some i)) =>
+           let op := (jget s "op").setObjVal! "loc" (Json.str n) |>.setObjVal! "now" (jget s "now")
+           let c0 := { p.c with pcs := setNth p.c.pcs tid (.opened (.api n op) (some i)) }
+           let c1 := cstep cfg c0 tid t0
+           let out := match c1.pcs[tid]? with | some (.releasing _ _ o) => outJ o | _ => errJ "model:pc"
+           -- a holder may call again: go back to `opened`
+           let c2 := { c1 with pcs := setNth c1.pcs tid (.opened (.peek n) (some i)) }
+           let (d', so) := reqD false p.d (.api n op) t0
+           fin { p with c := c2, d := d' } (out.setObjVal! "spec" (outJ so))
+         | _ => fin p (errJ "nohandle"))
+    | "release" =>
+      (match kget p.handles h with
+       | none =>
+         -- Release by name without a holder: still a table step
+         let tid := p.c.pcs.length
+         let c0 := { p.c with pcs := p.c.pcs ++ [PC.releasing n none .peeked] }
+         fin { p with c := cstep cfg c0 tid t1 } (okJ (Json.bool true))
+       | some tid =>
+         let inst := match p.c.pcs[tid]? with | some (.opened _ i) => i | _ => none
+         let c0 := { p.c with pcs := setNth p.c.pcs tid (.releasing n inst .peeked) }
+         fin { p with c := cstep cfg c0 tid t1, handles := kdel p.handles h } (okJ (Json.bool true)))
+    | "req" =>
+      let tid := p.c.pcs.length
+      let op := (jget s "op").setObjVal! "loc" (Json.str n) |>.setObjVal! "now" (jget s "now")
+      let r := reqOf k op
+      let c0 := { p.c with pcs := p.c.pcs ++ [PC.start r] }
+      let c1 := stepsUntil cfg c0 tid t0 (fun pc => match pc with | .releasing _ _ _ => true | .done _ _ => true | _ => false) 5
+      let newLoad := c1.loads.length > loads0
+      let ml := p.multiLive || (newLoad && heldElsewhere c1 tid n)
+      let c2 := stepsUntil cfg c1 tid t1 isFinished 2
+      let out := match c2.pcs[tid]? with | some (.done _ o) => outJ o | _ => errJ "model:pc"
+      let (d', so) := reqD false p.d r t0
+      fin { p with c := c2, d := d', multiLive := ml } (out.setObjVal! "spec" (outJ so))
+    | "sleep" => fin p (okJ (Json.bool true))
+    | t => fin p (errJ ("unknown step " ++ t))
+  let (p, outs) := (jarr cj "steps").foldl step (({} : PSt k), [])
+  Json.mkObj [("outs", Json.arr outs.toArray), ("multiLive", Json.bool p.multiLive)]
+
+/-- model-side handler for cases whose "kind" starts with "c17." -/
 def handleC17 (kind : String) (c : Json) : Json :=
-  Json.mkObj [("err", Json.str ("unknown kind " ++ kind))]
+  match kind with
+  | "c17.sys" => handleC17Sys c
+  | "c17.proto" => handleC17Proto c
+  | _ => Json.mkObj [("err", Json.str ("unknown kind " ++ kind))]
